@@ -30,6 +30,7 @@ class LockEngine(Engine):
         self.callsite = {}        # 'ret:fn:inst' -> callee name
         self.callargs = {}
         self.track_writes = ()
+        self.value_token_fields = ()
         Engine.__init__(self, mod, [], opaque={}, inline_filter=self._inline)
         self.wrappers = util.cas_wrappers(mod)
     def memoizable(self, callee):
@@ -149,6 +150,20 @@ class LockEngine(Engine):
         self.origin.setdefault((self.entry_name, sp.base), set()).add(p)
         if p.path and p.path[-1][0] == 'f' and p.path[-1][1] in ('nsync_dll_element_s_.next', 'nsync_dll_element_s_.prev'):
             st.nn.add(sp)
+    # ---- opaque integer tokens (C10): the counter's loaded value and the delta argument are named, their sum is a name too, so that
+    # "the CAS installs expected + delta", "add returns that sum" and "the drain happens where that sum is 0" can be read off the paths
+    def do_binop(self, op, w, a, b, inst):
+        def tok(x):
+            return isinstance(x, Ptr) and not x.path and x.base.startswith(('tok:', 'sum:'))
+        if op == 'add' and tok(a) and tok(b):
+            return Ptr('sum:' + '+'.join(sorted((a.base, b.base))), ())
+        if op == 'add' and ((tok(a) and b == 0) or (tok(b) and a == 0)):
+            return a if tok(a) else b
+        return Engine.do_binop(self, op, w, a, b, inst)
+    def on_cas_other(self, st, f, inst, p, E, N):
+        if isinstance(p, Ptr) and p.path and p.path[-1][0] == 'f' and p.path[-1][1] in self.ready_fields:
+            self.record(Record('valcas', inst, st, field=p.path[-1][1], obj=Ptr(p.base, p.path[:-1]), expected=E, new=N, held=dict(self.held(st)), entry=self.entry_name),
+                        ('valcas', inst.fn.name, inst.id, st.stack(), repr(E), repr(N)))
     def on_int_load(self, st, f, inst, p):
         # the disconnecting count of a note, read under that note's mutex: abstracted to {0, non-zero} so that tests of it are path-sensitive
         if p.path and p.path[-1][0] == 'f' and p.path[-1][1].endswith('.disconnecting'):
@@ -171,6 +186,11 @@ class LockEngine(Engine):
             mf = self.mutex_field_of(p.path[-1][1])
             if mf and any(isinstance(m, Ptr) and m.base == obj.base and m.path[:-1] == obj.path and m.path[-1][1] == mf for m in self.held(st)):
                 st.ghost[('obs', obj)] = 1
+            if p.path[-1][1] in self.value_token_fields:
+                t = Ptr('tok:val:%s:%s' % (f.fn.name, inst.id), ())
+                st.nn.discard(t)
+                st.ghost.pop(('zero', t.base), None)
+                return t
         return TOP
     def note_access(self, st, inst, p, kind):
         if not isinstance(p, Ptr):
